@@ -60,6 +60,8 @@ Record Inv (s : state) : Prop := {
   (* ->term is never uninitialised; it points to a frame exactly while that frame runs for this instance *)
   inv_term : forall i ir, itab s i = Some ir -> i_term ir = term_of_frame (frame s) i;
   inv_frame : forall i, frame s = Some (Some i) -> itab s i <> None;
+  (* -1, the failure value of inotify_add_watch and the wd of queue-overflow events, is the key of no watch *)
+  inv_wd : forall i ir w, itab s i = Some ir -> ~ In (-1, w) (i_watches ir);
 }.
 
 (* ---------- routing, stated on events (not bytes) ---------- *)
@@ -175,6 +177,19 @@ Definition kills (d : delivery) (w : id) : Prop :=
 
 (* the reads that precede the one that returns something: all interrupted *)
 Definition eintrs (pre : list readres) : Prop := forall r, In r pre -> r = REintr.
+
+(* ---------- what the harness dumps after an operation ---------- *)
+(* the watch sets of the live instances among ids, in that order *)
+Definition dumps_of (s : state) (ids : list id) : dumps :=
+  flat_map (fun i => match dump s i with Some l => [(i, l)] | None => [] end) ids.
+
+(* what the monitor's wd -1 clauses mean for one delivery record: the event is not a queue-overflow /
+   wd -1 event, the handler's registrations with a failing inotify_add_watch did not succeed, and no
+   watch is registered under -1 when the handler returns *)
+Definition nowd_ok (d : delivery) : Prop :=
+  d_wd d <> -1 /\
+  (forall w i m rc, In (ARegW w i (-1) m, rc) (d_acts d) -> rc = -1 \/ rc = 1) /\
+  (forall x w, d_exit d = Some x -> ~ In (-1, w) x).
 
 (* scripted read results of a well-formed scenario: whatever data a read returns is whole, well-formed records *)
 Definition wf_readres (r : readres) : Prop :=
